@@ -61,3 +61,36 @@ Definition run_build2 (t : Z) (a : list sexp) : sexp :=
       end
   | _, _ => SL [SI (-1)]
   end.
+
+(* ---------- the resolved plan of a build (op 602) ---------- *)
+From Dznpy Require Import Model.Plan.
+
+Definition enc_rkind (r : rkind) : sexp :=
+  match r with RVoid => SL [SI 0] | RBool => SL [SI 1] | REnum en => SL [SI 2; enc_ids (en_fqn en); enc_list enc_json (en_fields en)]
+  | RInt => SL [SI 3] | ROther => SL [SI 4] end.
+
+Definition enc_plan_event (fc : file_contents) (itf : interface_d) (e : event) : sexp :=
+  SL [enc_str (e_name e); SI (match e_dir e with EIn => 0 | EOut => 1 end); enc_rkind (ret_kind fc itf e);
+      enc_list (fun f => SL [enc_str (f_name f); SI (match f_dir f with FIn => 0 | FOut => 1 | FInOut => 2 end);
+                             enc_opt enc_str (formal_type fc itf f)]) (e_formals e)].
+
+Definition enc_plan_port (fc : file_contents) (p : port_info) : sexp :=
+  SL [enc_str (po_name (pi_port p)); SI (match po_dir (pi_port p) with PProvides => 0 | PRequires => 1 end);
+      enc_bool (po_injected (pi_port p));
+      enc_opt (fun i => SL [enc_ids (it_fqn i); enc_list (enc_plan_event fc i) (it_events i);
+                            enc_list (fun t => match t with TEnum en => SL [enc_ids (en_fqn en); enc_list enc_json (en_fields en)]
+                                                          | TSubInt s => SL [enc_ids (su_fqn s)] end) (it_types i)]) (pi_itf p);
+      enc_opt (fun sm => SL [enc_sem (fst sm);
+                             enc_opt (fun m => SL [enc_str (e_name (mx_claim m)); enc_ids (mx_reply m); enc_str (e_name (mx_release m))]) (snd sm)])
+              (pi_exposed p)].
+
+Definition run_build3 (t : Z) (a : list sexp) : sexp :=
+  match t, a with
+  | 602, [doc; cfg] =>
+      match process (dec_json doc) with
+      | Err e => SL [SI (100 + Z.of_nat (err_code e))]
+      | Ok fc => enc_res (fun pl => SL [enc_ids (pl_enc_fqn pl); enc_ids (pl_scope pl); enc_list (enc_plan_port fc) (pl_ports pl)])
+                         (make_plan fc (dec_config cfg))
+      end
+  | _, _ => SL [SI (-1)]
+  end.
